@@ -58,8 +58,14 @@ def partition_dtype(repo, res):
     ge = uexpr("GE", "sqrt_ge_half", [sq, half])
     pw = uexpr("Power", "x0_pow_f", [x0, f_])  # real base, complex exponent: the value is complex
     pw2 = uexpr("Power", "x0_pow_two", [x0, two])
+    # integer literals are numbers: a value built from them alone is still divided as a real number (UFL's `/` is true division)
+    three = uexpr("IntValue", "three", literal=True)
+    three.f["value"] = 3
+    cint = uexpr("Conditional", "cond_two_three", [lt, two, three])
+    quot = uexpr("Division", "cond_over_two", [cint, two])
+    inv = uexpr("Division", "x0_over_cond", [x0, cint])
     terminal_types = {"x0": "DataType.REAL", "x1": "DataType.REAL", "f": "DataType.SCALAR", "g": "DataType.SCALAR"}
-    ops_nodes = [prod, sumx, lt, twof, cond, ref, gt, fx, cond2, sq, ge, pw, pw2]
+    ops_nodes = [prod, sumx, lt, twof, cond, ref, gt, fx, cond2, sq, ge, pw, pw2, cint, quot, inv]
     nodes = {}
     for t in (x0, x1, f_):
         nodes[len(nodes)] = {"status": "varying", "expression": t, "mt": Node("ModifiedTerminal", name=t.f["name"]), "tr": Node("Table", name="FE_" + t.f["name"])}
@@ -74,9 +80,11 @@ def partition_dtype(repo, res):
         ops = [types[o.f["name"]] for o in v.f["ufl_operands"]]
         if v.cls == "Conditional":
             ops = ops[1:]
-        return _join(ops)
+        t = _join(ops)
+        # a value is never an integer variable: `int sv = cond ? 2 : 3; ... sv / 2` is integer division in C
+        return "DataType.REAL" if t == "DataType.INT" else t
 
-    lit_types = {"half": "DataType.REAL", "two": "DataType.INT"}
+    lit_types = {"half": "DataType.REAL", "two": "DataType.INT", "three": "DataType.INT"}
     ideal = {**terminal_types, **lit_types}  # what each node's value is, from the terminals up
     for o in ops_nodes:
         ideal[o.f["name"]] = expected(o, ideal)
@@ -172,7 +180,8 @@ def partition_dtype(repo, res):
                 continue
             if ORDER.index(got) < ORDER.index(want):
                 res.fail(key, f"{cls}: the intermediate for `{nm}` ({o.cls}) is declared {got.split('.')[1]} but its operands deliver {want.split('.')[1]}: the "
-                         "narrower variable drops the imaginary part (or the fraction) of the value", loc, props=("C09", "C19", "C04") if cls == "ExpressionGenerator" else ("C09", "C19"))
+                         "narrower variable drops the imaginary part (or the fraction) of the value - an `int` intermediate makes every division it takes part in an "
+                         "integer division: (conditional(c, 3, 2) / 2) * v * dx tabulates 1/6 instead of 1/4 on the reference triangle", loc, props=("C09", "C19", "C04") if cls == "ExpressionGenerator" else ("C09", "C19"))
         # (b) operands of ordering comparisons
         for o in ops_nodes:
             if o.cls not in ("LT", "GT", "LE", "GE"):
